@@ -158,6 +158,21 @@ type c13Pending struct {
 	containsA, containsB []*c13Case
 }
 
+// A transformed schema that the importer + compiler reject STATICALLY ("compile-error": the CUE
+// value is bottom, e.g. `3 & matchN(1, [number, <=3.0])`) rejects every instance: that is an
+// import-time report, and it counts as the verdict `false` for the confirmation.
+func probeUsable(p *c13Case) bool { return p.importErr == "" || p.importErr == "compile-error" }
+
+func probeVerdict(p *c13Case, idx int) string {
+	if p.importErr == "compile-error" {
+		return "false"
+	}
+	if idx < len(p.verdicts) {
+		return p.verdicts[idx]
+	}
+	return ""
+}
+
 func hasRecursiveRef(s jv) bool {
 	root, ok := s.(jobj)
 	if !ok {
@@ -269,10 +284,7 @@ func c13Confirm(c *Cfg, o *c13Oracle, cases []*c13Case) {
 			if !needOK(x.needs) {
 				continue
 			}
-			mk(x.class, x.needs, x.fn)
-			if s2, _ := x.fn(cs.schema, maxInst); !sameJV(s2, cs.schema) {
-				applied = append(applied, x)
-			} else if _, j2 := x.fn(cs.schema, cs.insts[fail[0]]); !sameJV(j2, cs.insts[fail[0]]) {
+			if mk(x.class, x.needs, x.fn) == 1 {
 				applied = append(applied, x)
 			}
 		}
@@ -348,7 +360,7 @@ func c13Confirm(c *Cfg, o *c13Oracle, cases []*c13Case) {
 		var lines []string
 		for _, p := range pend {
 			for _, a := range p.attempts {
-				if a.oracle != nil || a.probe.importErr != "" {
+				if a.oracle != nil || !probeUsable(a.probe) {
 					continue
 				}
 				sh := H(a.probe.schemaTxt)
@@ -361,7 +373,7 @@ func c13Confirm(c *Cfg, o *c13Oracle, cases []*c13Case) {
 		n := 0
 		for _, p := range pend {
 			for _, a := range p.attempts {
-				if a.oracle != nil || a.probe.importErr != "" {
+				if a.oracle != nil || !probeUsable(a.probe) {
 					continue
 				}
 				a.oracle = ans[n : n+len(a.probe.instTxt)]
@@ -387,13 +399,13 @@ func c13Confirm(c *Cfg, o *c13Oracle, cases []*c13Case) {
 					continue
 				}
 				for _, a := range p.attempts {
-					if a.probe.importErr != "" || a.oracle == nil {
+					if !probeUsable(a.probe) || a.oracle == nil {
 						continue
 					}
 					if a.needs == "contains-standalone-differs" && !containsDiffers {
 						continue
 					}
-					v := a.probe.verdicts[idx]
+					v := probeVerdict(a.probe, idx)
 					if isVerdict(v) && v == a.oracle[idx] {
 						cs.class[k] = a.class
 						cs.confirm[k] = [2]string{a.probe.schemaTxt, a.probe.instTxt[idx]}
@@ -411,7 +423,7 @@ func c13Confirm(c *Cfg, o *c13Oracle, cases []*c13Case) {
 							v := "-"
 							if a.oracle != nil {
 								or = a.oracle[idx]
-								v = a.probe.verdicts[idx]
+								v = probeVerdict(a.probe, idx)
 							}
 							fmt.Fprintf(os.Stderr, "    %s[%s] err=%s impl=%s oracle=%s  %s ;; %s\n", a.class, a.needs, a.probe.importErr, v, or, a.probe.schemaTxt, a.probe.instTxt[idx])
 						}
